@@ -210,6 +210,11 @@ def cases(tier, rng):
             yield {'lay': K, 'dir': D, 'strict': True, 'name': nm, 'mac': 'include' if j % 5 == 0 else 'input'}
             if j % (7 if quick else 3) == 0 or len(nm) < 9:
                 yield {'lay': K, 'dir': D, 'strict': False, 'name': nm, 'mac': 'input'}
+    # 3a. the same directory string after the link it goes through was re-pointed (blink: base -> base2, out/in: ../base -> ../base2)
+    for link, t1, t2 in (('blink', 'base', 'base2'), ('out/in', '../base', '../base2'), ('blink', 'base', 'out')):
+        for nm in ['a', 'a.tex', 's', 's.tex', 't', '../base/a', '../base/a.tex', '{R}/base/a.tex', 'sub/d', 'lo', 'n1', '../base2/s', 'nonex', 'deep/u']:
+            for strict in (True, True, False):
+                yield {'lay': K, 'dir': link, 'strict': strict, 'name': nm, 'mac': 'input', 'repoint': [link, t1, t2]}
     # 3b. kitchen-sink layout, targeted names (paths to real entries, by several routes, with/without extension)
     kd = [e[1] for e in K if e[0] == 'd']
     kf = [e[1] for e in K if e[0] == 'f']
@@ -400,6 +405,8 @@ def record_fs(top, dirpath, name):
     return J, R, E, I, D
 
 def to_line(c):
+    if c.get('repoint'):
+        return None         # the file-system tables would be recorded before the link is re-pointed (oracle only)
     top, root = _cached_layout(c['lay'])
     name = c['name'].replace('{R}', root)
     if c['dir'] is None:
@@ -473,9 +480,22 @@ def run_impl(c):
     old_prop = lg.propagate
     lg.addHandler(h)
     lg.propagate = False
+    rp = c.get('repoint')
     try:
+        if rp:
+            # the configured directory STRING is the same as in an earlier lookup (by another converter object), but it
+            # designates another directory now: a symbolic link that was re-pointed in between
+            link = os.path.join(root, rp[0])
+            first = LatexNodes2Text()
+            first.set_tex_input_directory(link)
+            first.read_input_file('a'); first.latex_to_text('\\input{s}')
+            os.remove(link); os.symlink(rp[2], link)
         return _run(c, top, root, h, LatexNodes2Text)
     finally:
+        if rp:
+            link = os.path.join(root, rp[0])
+            if os.path.lexists(link): os.remove(link)
+            os.symlink(rp[1], link)
         lg.removeHandler(h)
         lg.propagate = old_prop
 
